@@ -820,6 +820,47 @@ func TestRingManyPushes(t *testing.T) {
 	vp.NonTrivialN("c11.ring-many", 2)
 }
 
+// TestRingWide (thorough tier, 32-bit variant only): a buffer of more than
+// 2^30 zero-size slots, pushed until it is full and has wrapped almost once
+// more, so that "position + index" passes 2^31.  Values of a zero-size type
+// are indistinguishable; the oracle is the number of values each traversal
+// yields and Len.
+func TestRingWide(t *testing.T) {
+	shard, n := vp.Shard()
+	if strconv.IntSize != 32 || !vp.Thorough() || shard != n-1 {
+		t.Skip("needs the 32-bit build of the thorough tier (2^62 slots are out of reach on 64-bit platforms)")
+	}
+	for _, size := range []uint{1<<30 + 8, 3 << 29} {
+		rb := container.NewRingBuffer[struct{}](size)
+		for _, pushes := range []uint64{uint64(size) - 1, uint64(size), 2*uint64(size) - 3} {
+			for rb.Len() < uint(min(pushes, uint64(size))) {
+				rb.Push(struct{}{})
+			}
+			if pushes > uint64(size) {
+				for i := uint64(size); i < pushes; i++ {
+					rb.Push(struct{}{})
+				}
+			}
+			vp.Eval("c11.ring-wide")
+			want := min(pushes, uint64(size))
+			var fwd, rev, few uint64
+			err := vp.Guard(func() error {
+				rb.ReverseRange(func(struct{}) bool { few++; return few < 3 })
+				rb.Range(func(struct{}) bool { fwd++; return true })
+				rb.ReverseRange(func(struct{}) bool { rev++; return true })
+				return nil
+			})
+			if err != nil || uint64(rb.Len()) != want || fwd != want || rev != want || few != 3 {
+				vp.Fail(t, "c11.ring-wide", map[string]any{"cap": size, "pushes": pushes},
+					fmt.Errorf("capacity %d after %d pushes: Len() = %d, Range yielded %d values, ReverseRange %d, a ReverseRange stopped at the third value %d; want %d (and 3); error: %v", size, pushes, rb.Len(), fwd, rev, few, want, err))
+				return
+			}
+		}
+	}
+	vp.Class("ring-wide:more-than-2^30-slots-wrapped-on-a-32-bit-build")
+	vp.NonTrivialN("c11.ring-wide", 2)
+}
+
 // checkReaders: a container that is only read may be read from several
 // goroutines at once (Has, Len, Values, Range, Equal, String / Range,
 // ReverseRange, Current, Len are observers; an observer that writes hidden
